@@ -34,7 +34,8 @@ Deep == { Arr(<<Oa(Oa(N1)), Oa(N2)>>),
           Obj(<<KV(ka, Obj(<<KV(kd, Oa(N1)), KV(ke, N2)>>)), KV(kb, Oab(N1, N2)), KV(kc, Obj(<<KV(ka, N3), KV(ke, Sa)>>))>>) }
 InnerQ == {N1, Sa, A0, Oa(N1), Arr(<<N1, N2>>), Oab(N2, N1)}
 InnerP == IF DocSet = "small" THEN InnerQ ELSE Inner
-DocsPairs == Scalars \cup {Arr(s) : s \in SeqsUpTo(InnerP, 2)} \cup ObjsOver(InnerP) \cup Deep
+InnerO == IF DocSet = "small" THEN {N1, Oa(N1), Arr(<<N1, N2>>), Oab(N2, N1)} ELSE Inner
+DocsPairs == Scalars \cup {Arr(s) : s \in SeqsUpTo(InnerP, 2)} \cup ObjsOver(InnerO) \cup Deep
 InnerT == IF DocSet = "small" THEN {N1, A0, Arr(<<N1, N2>>), Oa(N1), Oab(N2, N1), Oa(Arr(<<N1, N2>>))}
           ELSE {N1, Sa, A0, O0, Arr(<<N1, N2>>), Oa(N1), Oab(N2, N1), Oa(Arr(<<N1, N2>>))}
 DocsTriples == {N1} \cup {Arr(s) : s \in SeqsUpTo(InnerT, 2)} \cup {Oab(x, y) : x \in InnerT, y \in InnerT} \cup Deep
@@ -89,8 +90,8 @@ Sigma == (IF Scope = "pairs" THEN SigmaPairs ELSE SigmaTriples) \cup SigmaSpell
 
 F1 == {FF(Fn_f1), FF(Fn_fodd), FF(Fn_ferr), AF(Fn_g1), AF(Fn_gerr)}
 F2 == {FF(Fn_f2), AF(Fn_g2), FF(Fn_f3)}
-FSeqsSmall == { <<FF(Fn_f1)>>, <<AF(Fn_g1)>>, <<FF(Fn_ferr)>>, <<AF(Fn_gerr)>>, <<FF(Fn_fodd), FF(Fn_f2)>>,
-                <<FF(Fn_f1), AF(Fn_g2)>>, <<AF(Fn_g1), FF(Fn_f2)>>, <<FF(Fn_fodd), FF(Fn_f2), AF(Fn_g2)>>, <<AF(Fn_g1), AF(Fn_g2)>> }
+FSeqsSmall == { <<FF(Fn_f1)>>, <<AF(Fn_g1)>>, <<FF(Fn_ferr)>>, <<AF(Fn_gerr)>>,
+                <<FF(Fn_fodd), FF(Fn_f2), AF(Fn_g2)>>, <<AF(Fn_g1), AF(Fn_g2)>>, <<AF(Fn_g1), FF(Fn_f2)>> }
 FSeqsFull == {<<x>> : x \in F1} \cup {<<x, y>> : x \in F1, y \in F2}
          \cup {<<FF(Fn_f1), AF(Fn_g1), FF(Fn_f2)>>, <<AF(Fn_g1), AF(Fn_g2), FF(Fn_f3)>>, <<FF(Fn_fodd), FF(Fn_f2), AF(Fn_g2)>>}
 FSeqs == IF FuncSet = "small" THEN FSeqsSmall ELSE FSeqsFull
